@@ -272,6 +272,10 @@ def scenario_interleaved(env, store, graph, src_desc):
     fmt = rng.choice([GraphFormat.GRAPHML, GraphFormat.JSON_NODELINK])
     parser = parse_graphml if fmt == GraphFormat.GRAPHML else parse_nodelink
     w = {'store': store, 'format': fmt.name, 'source': src_desc.get('source'), 'case': src_desc.get('case'), 'scenario': 'interleaved'}
+    if canon.graph_snapshot(imp, gid) is None:
+        # a generated model that ended up empty (every element was removed again): nothing to serialize, as in round_trip
+        ctx.count('source-model-empty-skipped')
+        return
     try:
         text1 = graph.serialize_graph(format=fmt)
         copy_id = fresh_id('keep')
